@@ -15,7 +15,8 @@ RULE = ('exhaustive per shipped code ((5,2,3)) ((4,2,2)) ((4,4,2)) ((6,4,2)) ((8
         'source (read from the AST) on random states and code words; error-set generators for n<=6, d<=4 (asymmetric: n<=5, w_z in {0.5,1,1.5,2,3}) against brute force over '
         'all 4^n Paulis; weight enumerators for n<=6 (8 thorough) against sum rules and an independent enumerator; hypothesis-generated Pauli strings in both parser syntaxes. '
         'Every (code, error) pair is non-trivial and distinct.'
-        ' Code words also in other memory layouts and as torch tensors (K=2,4); enumerator_history: weight enumerators of arbitrary random subspaces, several calls in a row with the same n and different K, each against the brute-force Pauli sum.')
+        ' Code words also in other memory layouts and as torch tensors (K=2,4); enumerator_history: weight enumerators of arbitrary random subspaces, several calls in a row with the same n and different K, each against the brute-force Pauli sum.'
+        ' generate_code_np called again on the same circuit object; use_tqdm=True gives the same enumerators.')
 ASSUMPTIONS = ['the strings a stabilizer circuit must implement are the list literal assigned right before ret["stabilizer"] in the source of each generate_code* function; '
                'if that pattern is not found the comparison is skipped (labelled) and only the structural clauses are judged',
                'Knill-Laflamme tolerance 1e-9 on amplitudes']
